@@ -137,7 +137,9 @@ def gen(rng):
         sched = {'strategy': rng.choice(['uniform', 'uniform', 'pct', 'sweep', 'sweep']), 'seed': rng.randrange(1 << 30), 'depth': rng.randint(1, 3),
                  'sweep': {'pid': rng.choice([1, 1, 2]), 'k': rng.randrange(0, 40)}}
     return {
-        'world': {'mounts': L['mounts'], 'steps': steps},
+        # (6 % of the worlds with volumes: one of them is under systemd / autofs automount control - the mount table names its
+        # mount point twice, the autofs placeholder first)
+        'world': dict({'mounts': L['mounts'], 'steps': steps}, **({'automount': [rng.choice(L['vols'])]} if L['vols'] and rng.random() < 0.06 else {})),
         'procs': procs,
         'sched': sched,
         'dirsalt': rng.randrange(1 << 30),
